@@ -39,7 +39,8 @@ Init == /\ depth \in Depths
         /\ Out(depth, abs, segs)
 
 Next == /\ Len(segs) < MaxLen
-        /\ \E s \in Seg : segs' = Append(segs, s)
+        /\ \E s \in Seg \cup (IF Len(segs) < 3 /\ \A i \in 1..Len(segs) : segs[i] \notin ExtraSeg THEN ExtraSeg ELSE {}) :
+              segs' = Append(segs, s)
         /\ UNCHANGED <<depth, abs>>
         /\ Out(depth, abs, segs')
 
@@ -61,7 +62,7 @@ RelAgrees(y, esc) == esc = EscapesRel(y.roots, y.base, segs)
 \* without a parent reference nothing leaves the directory it is resolved against
 NoUpNoEscape(y, esc) == (~HasUp(segs) /\ Inside(y.roots, y.base)) => ~esc
 \* a sibling that extends the root's name is outside, so is every ancestor
-SiblingAndAncestorOutside(y, esc) == Class(y.roots, y.base, segs) \in {"sibling-prefix", "ancestor", "outside"} <=> esc
+SiblingAndAncestorOutside(y, esc) == Class(y.roots, y.base, segs) \in {"sibling-prefix", "sibling-case", "ancestor", "outside"} <=> esc
 \* the root itself is not an escape
 RootItselfInside(y) == \A i \in 1..Len(y.roots) : ~Escapes(y.roots, y.roots[i], <<>>)
 
